@@ -121,6 +121,7 @@ def programs(ctx, n):
         progs.append(FIXED_ALL_KINDS)
         progs.append(FIXED_STRING_KEYS)
         progs.append(FIXED_REFERENCE_CHAIN)
+        progs.append(FIXED_LENGTH_OF_STRING)
         for p in pipeline.matrix_programs()[: (6 if ctx.tier == "quick" else 48)]:
             progs.append(dslgen.render(force_options(p)))
         for _ in range(n):
@@ -258,6 +259,22 @@ packet Fee {
 
 packet Ccy {
     char[3] Iso,
+}
+"""
+
+
+# @lengthOf aimed at a string (known finding: no generator computes it) — model and real run must still agree
+FIXED_LENGTH_OF_STRING = """options {
+    JavaPackage = "com.example.msg";
+    GoPackage = "msg";
+    GoModule = "example.com/msg";
+}
+
+root packet Note {
+    u16 Kind,
+    u16 TextLen @lengthOf(Text),
+    string Text,
+    u32 Tail,
 }
 """
 
@@ -466,7 +483,10 @@ def run_c17(ctx):
                     cause = attribute(cause, r.get("features", []))
                 if model != "pass" and model != "invalid" and codec_sigs:
                     # the codec of this output deviates from the declared wire format (C01-C06 territory): the failing test is a consequence
-                    cause = "codec/" + codec_sigs[0]
+                    # … of the reasons given for the packet under test if there are any, the encoder's first (it runs first)
+                    own = sorted({"%s/%s/%s/%s" % (x["side"], lang, x["kind"], x["attr"]) for x in o.get("reasons", []) if x.get("packet") == T["packet"]},
+                                 key=lambda g: (not g.startswith("enc/"), g))
+                    cause = "codec/" + (own or codec_sigs)[0]
                 rows.append((T, r, model, cause, what, real_status, real_detail))
             # what the real build complains about in tests the model objects to, too: an unrelated test of the same
             # compilation unit (Go package, Rust crate, C++ file) fails with the same message — collateral
